@@ -351,7 +351,11 @@ impl Prop for C15 {
                         return;
                     }
                 };
-                let (orc, mag) = oracle_eval(&l, &c, l.tau[j], d);
+                let (orc, _) = oracle_eval(&l, &c, l.tau[j], d);
+                // backward error of the solve: a row's residual is small relative to (row of |B|) x max|c|,
+                // not relative to the terms that happen to be non-zero in that row
+                let cmax = c.iter().fold(0.0f64, |m, v| m.max(v.abs()));
+                let mag: f64 = (0..n).map(|i| basis_deriv(&l.t, i, k, d, l.tau[j]).1).sum::<f64>() * cmax;
                 ctx.eval(1);
                 ctx.asserted(2);
                 let tol = TOL * mag.max(y[j].abs());
